@@ -173,9 +173,33 @@ MDA_CHOICES = [
 # pointwise cases
 # ======================================================================================
 @st.composite
+def _with_second_couplings(draw, payload: dict):
+    """Turn some non-coupling second outputs into couplings: another discipline reads them.
+
+    coupled_systems() gives every discipline exactly one coupling output; IDF's consistency constraints and the
+    coupling removal of MDF must also cope with disciplines producing several couplings.  (The global scale of the
+    coupling blocks is recomputed from the payload: the system stays a contraction with factor q.)
+    """
+    n = len(payload["discs"])
+    if n < 2 or not any(len(d["outputs"]) > 1 for d in payload["discs"]) or draw(st.integers(0, 2)) == 0:
+        return payload
+    discs = [{**d, "outputs": [dict(o) for o in d["outputs"]]} for d in payload["discs"]]
+    for i, d in enumerate(discs):
+        for g in d["outputs"][1:]:
+            if draw(st.booleans()):
+                j = draw(st.sampled_from([k for k in range(n) if k != i]))
+                target = discs[j]["outputs"][0]
+                block = [[draw(st.integers(-3, 3)) for _ in range(g["size"])] for _ in range(target["size"])]
+                block[0][0] = block[0][0] or 1
+                target["lin"] = {**target.get("lin", {}), g["name"]: block}
+    return {"q": payload["q"], "x": payload["x"], "discs": discs}
+
+
+@st.composite
 def formulation_cases(draw):
     shape = draw(st.sampled_from(["any", "any", "any", "ring", "acyclic"]))
     system = draw(coupled_systems(max_disc=4, all_strong=True if shape == "ring" else None))
+    system = draw(_with_second_couplings(system))
     if shape == "acyclic":
         system = make_acyclic(system)
     system = ensure_a_design_input_is_read(system)
